@@ -725,7 +725,7 @@ theorem src_manageCanaryPodFailures_gen (gs : List GPod) (ms : List Pod) (hrel :
       | some (s, st') =>
         some (some { R with isFailed := s.isFailed, failedReason := s.failedReason, isPaused := s.isPaused,
                             pausedReason := s.pausedReason, newStatus := some st' }) := by
-  rcases R with ⟨fz, ip, pr, iu, ifl, fr, ns, ptc, ptd, rr⟩
+  rcases R with ⟨fz, ip, pr, iu, ifl, fr, ns, ptc, ptd, rr, un⟩
   simp only at hst hfr
   subst hst hfr
   unfold Generated.Decisions.manageCanaryPodFailures Eds.manageCanaryPodFailures canaryDerefs
@@ -755,11 +755,14 @@ theorem src_manageCanaryPodFailures_gen (gs : List GPod) (ms : List Pod) (hrel :
     intro x; cases x <;> rfl
   have hR0 : ∀ b : Bool,
       (if b = true then ({ isFrozen := fz, isPaused := false, pausedReason := "", isUnpaused := iu, isFailed := ifl,
-                            failedReason := "", newStatus := some st, podsToCreate := ptc, podsToDelete := ptd, result := rr } : GResult)
+                            failedReason := "", newStatus := some st, podsToCreate := ptc, podsToDelete := ptd, result := rr,
+                            unscheduledNodes := un } : GResult)
        else { isFrozen := fz, isPaused := ip, pausedReason := pr, isUnpaused := iu, isFailed := ifl,
-              failedReason := "", newStatus := some st, podsToCreate := ptc, podsToDelete := ptd, result := rr }) =
+              failedReason := "", newStatus := some st, podsToCreate := ptc, podsToDelete := ptd, result := rr,
+              unscheduledNodes := un }) =
       withState { isFrozen := fz, isPaused := ip, pausedReason := pr, isUnpaused := iu, isFailed := ifl,
-                  failedReason := "", newStatus := some st, podsToCreate := ptc, podsToDelete := ptd, result := rr }
+                  failedReason := "", newStatus := some st, podsToCreate := ptc, podsToDelete := ptd, result := rr,
+                  unscheduledNodes := un }
         { isFailed := ifl, failedReason := "", isPaused := if b = true then false else ip,
           pausedReason := if b = true then "" else pr } := by
     intro b; cases b <;> simp [withState]
